@@ -98,12 +98,16 @@ def _pipelines():
   def p_two_aggs(ds):
     return (transform.TreeTransform().data_source(ds).apply(lambda x: np.asarray(x) + 1)
             .agg(SumAgg(), output_keys='s').add_agg(fn=rs.Mean().as_agg_fn(), output_keys='m'))
-  return [('apply+MeanAndVariance', p_mean), ('apply+functional-sum', p_sum), ('apply+two-aggregates', p_two_aggs)]
+  def p_sliced(ds):
+    return (transform.TreeTransform().data_source(ds).apply(lambda x: {'v': list(np.asarray(x)), 'k': [int(v) % 2 for v in np.asarray(x)]})
+            .agg(SumAgg(), input_keys='v', output_keys='s').add_slice('k'))
+  return [('apply+MeanAndVariance', p_mean), ('apply+functional-sum', p_sum), ('apply+two-aggregates', p_two_aggs),
+          ('apply+sum sliced by key', p_sliced)]
 
 
 def _norm(r):
   if isinstance(r, dict):
-    return {str(k): _norm(v) for k, v in r.items()}
+    return {repr(k): _norm(v) for k, v in r.items()}
   if isinstance(r, (list, tuple)):
     return [_norm(x) for x in r]
   if hasattr(r, 'mean') and hasattr(r, 'count'):
